@@ -383,44 +383,86 @@ func (a Float) M__round__(digitsObj Object) (Object, error) {
 
 // Rich comparison
 
+// floatCompare compares a with other exactly
+//
+// It returns cmp = -1, 0, +1 for a <, ==, > other.  ok is false if other
+// isn't a number and unordered is true if either is a NaN.
+//
+// Ints are compared exactly rather than being converted to float
+// first as that loses precision for ints of more than 53 bits.
+func floatCompare(a Float, other Object) (cmp int, unordered bool, ok bool) {
+	var bBig *big.Int
+	switch b := other.(type) {
+	case Float:
+		switch {
+		case a < b:
+			return -1, false, true
+		case a > b:
+			return 1, false, true
+		case a == b:
+			return 0, false, true
+		}
+		return 0, true, true
+	case Int:
+		bBig = big.NewInt(int64(b))
+	case *BigInt:
+		bBig = (*big.Int)(b)
+	case Bool:
+		if b {
+			bBig = big.NewInt(1)
+		} else {
+			bBig = big.NewInt(0)
+		}
+	default:
+		return 0, false, false
+	}
+	if math.IsNaN(float64(a)) {
+		return 0, true, true
+	}
+	// big.Float holds both exactly (including infinities)
+	aFloat := new(big.Float).SetFloat64(float64(a))
+	bFloat := new(big.Float).SetInt(bBig)
+	return aFloat.Cmp(bFloat), false, true
+}
+
 func (a Float) M__lt__(other Object) (Object, error) {
-	if b, ok := convertToFloat(other); ok {
-		return NewBool(a < b), nil
+	if cmp, unordered, ok := floatCompare(a, other); ok {
+		return NewBool(!unordered && cmp < 0), nil
 	}
 	return NotImplemented, nil
 }
 
 func (a Float) M__le__(other Object) (Object, error) {
-	if b, ok := convertToFloat(other); ok {
-		return NewBool(a <= b), nil
+	if cmp, unordered, ok := floatCompare(a, other); ok {
+		return NewBool(!unordered && cmp <= 0), nil
 	}
 	return NotImplemented, nil
 }
 
 func (a Float) M__eq__(other Object) (Object, error) {
-	if b, ok := convertToFloat(other); ok {
-		return NewBool(a == b), nil
+	if cmp, unordered, ok := floatCompare(a, other); ok {
+		return NewBool(!unordered && cmp == 0), nil
 	}
 	return NotImplemented, nil
 }
 
 func (a Float) M__ne__(other Object) (Object, error) {
-	if b, ok := convertToFloat(other); ok {
-		return NewBool(a != b), nil
+	if cmp, unordered, ok := floatCompare(a, other); ok {
+		return NewBool(unordered || cmp != 0), nil
 	}
 	return NotImplemented, nil
 }
 
 func (a Float) M__gt__(other Object) (Object, error) {
-	if b, ok := convertToFloat(other); ok {
-		return NewBool(a > b), nil
+	if cmp, unordered, ok := floatCompare(a, other); ok {
+		return NewBool(!unordered && cmp > 0), nil
 	}
 	return NotImplemented, nil
 }
 
 func (a Float) M__ge__(other Object) (Object, error) {
-	if b, ok := convertToFloat(other); ok {
-		return NewBool(a >= b), nil
+	if cmp, unordered, ok := floatCompare(a, other); ok {
+		return NewBool(!unordered && cmp >= 0), nil
 	}
 	return NotImplemented, nil
 }
